@@ -191,12 +191,15 @@ class ThreadedHistory(History):
                 with self._lock:
                     self._loaded_strings.append(item)
 
-                for event in self._string_load_events:
+                # (Iterate over a copy: `load()` calls that finish or get
+                # cancelled remove their event from this list from another
+                # thread, which would make a plain iteration skip an event.)
+                for event in list(self._string_load_events):
                     event.set()
         finally:
             with self._lock:
                 self._loaded = True
-            for event in self._string_load_events:
+            for event in list(self._string_load_events):
                 event.set()
 
     def append_string(self, string: str) -> None:
